@@ -22,6 +22,8 @@ fn main() {
         ("drive", "xlsx_sheet") => props::xlsx_sheet::drive(&args),
         ("replay", "xlsx_strings") => props::xlsx_strings::replay(&args),
         ("drive", "xlsx_strings") => props::xlsx_strings::drive(&args),
+        ("replay", "shared_formula") => props::shared_formula::replay(&args),
+        ("drive", "shared_formula") => props::shared_formula::drive(&args),
         ("replay", "de") => props::de::replay(&args),
         ("drive", "de") => props::de::drive(&args),
         _ => {
